@@ -514,7 +514,7 @@ Definition sop_of (o : l2op) : option sop :=
   | OGet k => Some (SGet (unhex k))
   | OMeta k => Some (SMeta (unhex k))
   | OFlush | OHintDump | ODir => Some SNop
-  | ORestart _ | OGcRange _ _ _ | OGc _ _ _ => None
+  | ORestart _ | OGcRange _ _ _ | OGc _ _ _ | OTree _ => None
   end.
 
 Definition proj_out (o : l2out) : pout :=
@@ -522,6 +522,7 @@ Definition proj_out (o : l2out) : pout :=
   | XStored => PStored | XNotStored => PErr | XErr => PErr | XDeleted => PDeleted | XNotFound => PNotFound
   | XNum z => PNum z | XMiss => PMiss | XHit v f => PHit (unhex v) f
   | XMeta ver vh fl ln _ _ _ => PMeta ver vh fl ln
+  | XTree _ _ _ _ => POk
   | XOk => POk | XRefuse => PErr | XRange _ _ => POk | XGc _ _ _ _ => POk
   end.
 Definition proj (m : mout) : pout := match m with MHit v f => PHit v f | MOut o => proj_out o end.
